@@ -353,9 +353,24 @@ def check_bounds(lf, res, cls_tail, detail, replay):
     return True
 
 
+def _point(lf):
+    """every scalar parameter value of the function, keyed by name and scope"""
+    out = {}
+    for r in lf.get_param_rules():
+        v = r.get("init", r.get("value"))
+        if isinstance(v, (int, float, numpy.floating)):
+            out[(r["par_name"], str(r.get("edge")), str(r.get("edges")))] = float(v)
+        elif isinstance(v, dict):
+            for k2, v2 in v.items():
+                if isinstance(v2, (int, float, numpy.floating)):
+                    out[(r["par_name"], str(r.get("edge")), str(r.get("edges")), str(k2))] = float(v2)
+    return out
+
+
 def optimise_checked(plan, lf, n, local, res, label, replay, counter, inject=True):
     """J2 + J3 + bounded liveness around one optimise call"""
     before = lf.lnL
+    point_before = _point(lf)
     kw = opt_kwargs(plan, n, local)
     stage = "local" if local else ("global" if local is False else "global+local")
     faulty = "fault-free"
@@ -392,6 +407,17 @@ def optimise_checked(plan, lf, n, local, res, label, replay, counter, inject=Tru
     detail = (f"{label}: {plan['null']}->{plan['alt']} ({plan['kind']}) optimise({kw}) before={before!r} "
               f"after={after!r} fail_rate={plan['fail_rate'] if inject else 0} evals_cancelled={counter[1] - fired0}")
     if not (after >= before - slack):
+        point_after = _point(lf)
+        same_point = point_before.keys() == point_after.keys() and all(
+            abs(point_after[k] - v) <= 1e-12 * max(1.0, abs(v)) for k, v in point_before.items())
+        if same_point and before - after <= 1e-6 * max(1.0, abs(before)):
+            # the optimiser handed back its start point (to the last bit or two of the
+            # log/exp round trip of the optimiser's parameter transform); the two values
+            # differ because the function itself does not evaluate reproducibly to 1e-8
+            # at neighbouring points (codon models: eigen / Pade exponentiation), which
+            # is not a loss by the optimiser
+            res.probe("start-point-returned:evaluation-noise")
+            return True
         res.add(f"C16.lost-likelihood/{stage}:{faulty}", detail, replay)
         return False
     if not check_bounds(lf, res, stage, detail, replay):
@@ -583,6 +609,8 @@ def run(plan, tier="quick") -> RunResult:
                         la, lb = result[a].lnL, result[b].lnL
                         if lb < la - 2.1e-6 * max(1.0, abs(la)):
                             cause = f"app-chain:{a}->{b}"
+                            if a == plan["null"] and _null_covers_ref_cell(plan):
+                                cause = "app:null-parameter-covers-reference-cell"  # known finding C16-K2
                             try:
                                 if _projection_leaves_app_bounds(
                                         lambda: sm_of(b.replace("-alt", "")).make_likelihood_function(tree),
@@ -603,7 +631,9 @@ def run(plan, tier="quick") -> RunResult:
                         # parameter: was a projected value outside them?
                         cause = pair
                         try:
-                            if _projection_leaves_app_bounds(
+                            if _null_covers_ref_cell(plan):
+                                cause = "null-parameter-covers-reference-cell"  # known finding C16-K2
+                            elif _projection_leaves_app_bounds(
                                     lambda: sm_of(plan["alt"]).make_likelihood_function(tree)
                                     if split else build(plan, "alt", aln, tree), result.null.lf, aln):
                                 cause = "bounds-clip"
@@ -615,6 +645,12 @@ def run(plan, tier="quick") -> RunResult:
             except Exception as e:  # noqa: BLE001
                 res.add(f"C16.app-raised/{pair}:{type(e).__name__}", f"hypothesis app raised {e!r}", replay)
     return _finish(res, h, plan)
+
+
+def _null_covers_ref_cell(plan):
+    """a parameter of the nested model covers the richer model's reference cell (C16-K2)"""
+    ref = sm_of(plan["alt"]).get_param_matrix_coords(include_ref_cell=True)["ref_cell"]
+    return any(ref <= cells for cells in sm_of(plan["null"]).get_param_matrix_coords().values())
 
 
 def _projection_leaves_app_bounds(make_alt, nested, aln):
